@@ -550,6 +550,33 @@ func TestCheck(t *testing.T) {
 		})
 	}
 
+	// -- a config cut short INSIDE its length-prefixed contents (the config's and the list's length fields say so):
+	// every such cut removes part of a field the structure requires, down to the extensions vector at its end --
+	r.ParallelW("innercut", r.N(6, 60), 1, func(i int, rng *mrand.Rand) {
+		_, cfg, err := ech.NewConfig(uint8(i), []byte(DNSName(rng, 8+rng.IntN(40))))
+		if err != nil {
+			r.Inconclusive("fixture: NewConfig: %v", err)
+			return
+		}
+		contents := cfg[4:]
+		for cut := 1; cut < len(contents); cut++ {
+			short := append([]byte{}, contents[:len(contents)-cut]...)
+			one := append([]byte{cfg[0], cfg[1], byte(len(short) >> 8), byte(len(short))}, short...)
+			list := append([]byte{byte(len(one) >> 8), byte(len(one))}, one...)
+			c := map[string]any{"bytes_removed_from_the_end_of_the_contents": cut, "list": mon.Hex(list)}
+			r.Guard("innercut", i, "robust:inner-truncation", c, func() {
+				_, lerr := ech.ParseConfigList(list)
+				_, serr := ech.Config(one).Spec()
+				r.Eval(fmt.Sprintf("innercut|%d|%d", i, cut))
+				r.Count("inner_truncations", 1)
+				if lerr == nil || serr == nil {
+					r.Violate("innercut", i, "robust:inner-truncation-accepted", fmt.Sprintf("a config whose contents lack their last %d bytes (lengths adjusted) was accepted: ParseConfigList err=%v, Spec err=%v", cut, lerr, serr), c)
+				}
+			})
+		}
+	})
+	r.Floor("inner_truncations", 300)
+
 	// -- NewConfig --
 	nNew := r.N(512, 60000)
 	r.Parallel("newconfig", nNew, func(i int, rng *mrand.Rand) {
